@@ -14,6 +14,10 @@ fields_of('SystemManager', timestep='int', systems='dict[str,ref:System]', execu
 fields_of('Environment', agents='dict[str,ref:Agent]')
 
 
+from pyvc.specs import REG, ghost
+REG.ghosts['runs'] = 'map[int]'          # per-call monitor: how often a system ran in this execute_systems call
+REG.ghosts['last'] = 'ref?:System'       # per-call monitor: the system that ran last
+
 # ------------------------------------------------------------------------------------------------ C01: queue
 def before(a, b, S):
     """a is scheduled before b: higher priority, or equal priority and registered earlier."""
@@ -65,3 +69,258 @@ contract('Core.SystemManager.add_system',
          modifies=['self.systems', 'self.execution_queue'],
          loops={0: dict(invariant=[add_system_inv], index='i', modifies=[])},
          props=['C01'])
+
+
+def remove_system_post(self, s_id, old):
+    Q = self.execution_queue
+    Q0 = old.self.execution_queue
+    S = self.systems
+    S0 = old.self.systems
+    k = index_of(Q0, S0[s_id])
+    return (len(Q) == len(Q0) - 1 and k < len(Q0)
+            and all(Q[j] is Q0[j] for j in range(0, k))
+            and all(Q[j] is Q0[j + 1] for j in range(k, len(Q)))
+            and s_id not in S and len(S) == len(S0) - 1
+            and all(k2 == s_id or (k2 in S and S[k2] is S0[k2]) for k2 in S0)
+            and all(implies(order_of(S0, a) < order_of(S0, b), order_of(S, a) < order_of(S, b))
+                    for a in S for b in S)
+            and all(k2 in S0 for k2 in S))
+
+
+def remove_system_unknown(self, s_id, old):
+    return s_id not in old.self.systems
+
+
+contract('Core.SystemManager.remove_system',
+         params={'self': 'ref:SystemManager', 's_id': 'str'},
+         requires=[SM_rep],
+         ensures={'C01': [remove_system_post, SM_rep]},
+         raises={'SystemNotFoundError': dict(when=remove_system_unknown)},
+         modifies=['self.systems', 'self.execution_queue'],
+         props=['C01'])
+
+
+def sm_init_post(self, model):
+    return (self.timestep == 0 and len(self.systems) == 0 and len(self.execution_queue) == 0
+            and len(self.component_pools) == 0 and self.model is model)
+
+
+contract('Core.SystemManager.__init__',
+         params={'self': 'ref:SystemManager', 'model': 'ref:Model'},
+         ensures={'C01': [sm_init_post, SM_rep], 'C02': [sm_init_post], 'C03': [sm_init_post]},
+         modifies=['field:self.timestep', 'field:self.systems', 'field:self.execution_queue',
+                   'field:self.component_pools', 'field:self.model',
+                   'new:dict[str,ref:System]', 'new:list[ref:System]', 'new:dict[cls,list[ref:Component]]'],
+         locals={},
+         props=['C01'])
+
+
+def system_init_post(self, id, model, priority, frequency, start, end):
+    return (self.id == id and self.model is model and self.priority == priority
+            and self.frequency == frequency and self.start == start and self.end == end)
+
+
+contract('Core.System.__init__',
+         params={'self': 'ref:System', 'id': 'str', 'model': 'ref:Model', 'priority': 'int', 'frequency': 'int',
+                 'start': 'int', 'end': 'int'},
+         ensures={'C01': [system_init_post], 'C02': [system_init_post]},
+         modifies=['self.id', 'self.model', 'self.priority', 'self.frequency', 'self.start', 'self.end'],
+         use='inline', props=['C01', 'C02'])
+
+
+# ------------------------------------------------------------------------------------------------ scheduler
+def due(x, t):
+    """C02 statement: start <= t <= end and (t - start) is a multiple of frequency."""
+    return x.start <= t and t <= x.end and (t - x.start) % x.frequency == 0
+
+
+def running(m):
+    return m._status < 1
+
+
+def freq_ok(self):
+    Q = self.execution_queue
+    return all(Q[i].frequency >= 1 for i in range(len(Q)))
+
+
+def exec_post_running(self, throw_error, old):
+    """Model running at entry: the step advances time by exactly one."""
+    return implies(running(old.self.model), self.timestep == old.self.timestep + 1)
+
+
+def exec_post_not_running(self, throw_error, old):
+    return implies(not running(old.self.model), self.timestep == old.self.timestep and not running(self.model))
+
+
+def exec_post_runs(self, throw_error, old):
+    """Every registered system ran at most once, only if due; exactly once if due and the model stayed running."""
+    Q = self.execution_queue
+    t0 = old.self.timestep
+    return (all(ghost().runs[Q[j]] == 0 or (ghost().runs[Q[j]] == 1 and due(Q[j], t0)) for j in range(len(Q)))
+            and implies(running(self.model),
+                        all(ghost().runs[Q[j]] == (1 if due(Q[j], t0) else 0) for j in range(len(Q))))
+            and implies(not running(old.self.model), all(ghost().runs[Q[j]] == 0 for j in range(len(Q)))))
+
+
+def exec_complete_err(self, throw_error, old):
+    return throw_error and not running(old.self.model)
+
+
+def exec_inv_basic(self, throw_error, old, i):
+    return (0 <= i and i <= len(self.execution_queue) and self.timestep == old.self.timestep
+            and running(old.self.model))
+
+
+def exec_inv_runs(self, throw_error, old, i):
+    Q = self.execution_queue
+    t0 = old.self.timestep
+    return (all(ghost().runs[Q[j]] == 0 or (ghost().runs[Q[j]] == 1 and due(Q[j], t0)) for j in range(0, i))
+            and implies(running(self.model),
+                        all(ghost().runs[Q[j]] == (1 if due(Q[j], t0) else 0) for j in range(0, i)))
+            and all(ghost().runs[Q[j]] == 0 for j in range(i, len(Q))))
+
+
+def exec_inv_last(self, throw_error, old, i):
+    return is_none(ghost().last) or index_of(self.execution_queue, ghost().last) < i
+
+
+USER_CODE_MODIFIES = ['fieldall:_status', 'store:dict[str,ref:Agent]', 'store:dict[cls,ref:Component]',
+                      'store:dict[cls,list[ref:Component]]', 'store:list[ref:Component]', 'fieldall:tag']
+SCHED_GHOSTS = ['ghost:runs', 'ghost:last']
+
+contract('Core.SystemManager.execute_systems',
+         params={'self': 'ref:SystemManager', 'throw_error': 'bool'},
+         requires=[SM_rep, freq_ok],
+         ensures={'C02': [exec_post_running, exec_post_runs], 'C06': [exec_post_not_running]},
+         raises={'ModelCompleteError': dict(when=exec_complete_err, props=['C06'])},
+         modifies=['self.timestep'] + USER_CODE_MODIFIES + SCHED_GHOSTS,
+         loops={0: dict(invariant=[(exec_inv_basic, ['C01', 'C02', 'C06']), (exec_inv_runs, ['C02']),
+                                   (exec_inv_last, ['C01'])],
+                        index='i', modifies=USER_CODE_MODIFIES + SCHED_GHOSTS, props=['C01', 'C02', 'C06'])},
+         ghost_init='sched_ghost_init',
+         props=['C01', 'C02', 'C06'])
+
+
+# ---- assumed contract of user code (abstract): System.execute, static view (system set not edited mid-step)
+def mon_order(self, caller):
+    """C01: the system about to run comes after the previous one in (priority desc, registration asc)."""
+    return is_none(ghost().last) or before(ghost().last, self, caller.self.systems)
+
+
+def mon_due(self, caller):
+    """C02: only due systems run, and none runs twice within one step."""
+    return due(self, caller.self.timestep) and ghost().runs[self] == 0
+
+
+def mon_running(self, caller):
+    """C06: nothing runs once the model is complete."""
+    return running(caller.self.model)
+
+
+contract('Core.System.execute',
+         params={'self': 'ref:System'},
+         kind='abstract',
+         monitor={'C01': [mon_order], 'C02': [mon_due], 'C06': [mon_running]},
+         modifies=USER_CODE_MODIFIES,
+         effects='system_execute',
+         assumes=['System.execute is user code: assumed frame of DESIGN Appendix B (static view)'])
+
+
+# ------------------------------------------------------------------------------------------------ Model
+def model_init_post(self, seed, logger):
+    return (running(self) and self.systems.model is self and self.environment.model is self
+            and self.systems.timestep == 0 and len(self.systems.systems) == 0
+            and len(self.systems.execution_queue) == 0 and len(self.systems.component_pools) == 0
+            and len(self.environment.agents) == 0 and len(self.environment.components) == 0)
+
+
+contract('Core.Model.__init__',
+         params={'self': 'ref:Model', 'seed': 'any', 'logger': 'ref?:Logger'},
+         ensures={'C06': [model_init_post], 'C03': [model_init_post], 'C02': [model_init_post]},
+         modifies=['self.environment', 'self.systems', 'self.random', 'self.logger', 'self._status',
+                   'new:obj:Environment', 'new:obj:SystemManager', 'new:obj:Random', 'new:obj:Logger',
+                   'new:dict[str,ref:System]', 'new:list[ref:System]', 'new:dict[cls,list[ref:Component]]',
+                   'new:dict[str,ref:Agent]', 'new:dict[cls,ref:Component]'],
+         props=['C06'])
+
+
+def complete_post(self):
+    return not running(self) and self._status == 1
+
+
+contract('Core.Model.complete', params={'self': 'ref:Model'}, ensures={'C06': [complete_post]},
+         modifies=['self._status'], use='inline', props=['C06'])
+
+
+def is_running_post(self, result):
+    return result == running(self)
+
+
+contract('Core.Model.is_running', params={'self': 'ref:Model'}, returns='bool',
+         ensures={'C06': [is_running_post]}, use='inline', props=['C06'])
+contract('Core.Model.__bool__', params={'self': 'ref:Model'}, returns='bool',
+         ensures={'C06': [is_running_post]}, use='inline', props=['C06'])
+
+
+def getattr_timestep_post(self, item, result):
+    return result == self.systems.timestep
+
+
+def getattr_other(self, item, old):
+    return item != 'timestep'
+
+
+contract('Core.Model.__getattr__', params={'self': 'ref:Model', 'item': 'str'}, returns='int',
+         ensures={'C02': [getattr_timestep_post]},
+         raises={'AttributeError': dict(when=getattr_other)},
+         use='inline', props=['C02'])
+
+
+def model_exec_requires(self):
+    return SM_rep(self.systems) and freq_ok(self.systems) and self.systems.model is self
+
+
+def model_exec_post(self, n, old):
+    t0 = old.self.systems.timestep
+    return (self.systems.timestep >= t0 and self.systems.timestep <= t0 + n
+            and implies(running(self), self.systems.timestep == t0 + n)
+            and implies(not running(old.self), self.systems.timestep == t0))
+
+
+def model_exec_bad_value(self, n, old):
+    return n <= 0
+
+
+def model_exec_inv(self, n, old, _):
+    t0 = old.self.systems.timestep
+    return (0 <= _ and _ <= n and self.systems.timestep >= t0 and self.systems.timestep <= t0 + _
+            and implies(running(self), self.systems.timestep == t0 + _)
+            and implies(not running(old.self), self.systems.timestep == t0)
+            and implies(not running(old.self), not running(self))
+            and SM_rep(self.systems) and freq_ok(self.systems) and self.systems.model is self)
+
+
+contract('Core.Model.execute',
+         params={'self': 'ref:Model', 'n': 'int'},
+         requires=[model_exec_requires],
+         ensures={'C02': [model_exec_post]},
+         raises={'ValueError': dict(when=model_exec_bad_value)},
+         modifies=['self.systems.timestep'] + USER_CODE_MODIFIES + SCHED_GHOSTS,
+         loops={0: dict(invariant=[(model_exec_inv, ['C02'])], index='_',
+                        modifies=['self.systems.timestep'] + USER_CODE_MODIFIES + SCHED_GHOSTS)},
+         cases=[dict(name='int', params={'n': 'int'})],
+         props=['C02'])
+
+
+def model_exec_type_requires(self, n):
+    return typeof(n) is not int and typeof(n) is not bool
+
+
+contract('Core.Model.execute', variant='nonint',
+         params={'self': 'ref:Model', 'n': 'any'},
+         requires=[model_exec_type_requires],
+         ensures={},
+         raises={'TypeError': dict(when=None, always=True)},
+         modifies=[],
+         notes='n that is not an instance of int (float, str, None, object): must raise TypeError, nothing changed',
+         props=['C02'])
